@@ -1,6 +1,7 @@
 import Driver.CscIO
 import ClarabelModel.CscMath
 import ClarabelModel.Cones.Nonsym
+import Driver.C16Dense
 
 open Clarabel Driver
 
@@ -143,7 +144,7 @@ def handleVec (ch : String) (kv : KV) : String :=
     match kv.floats "z", kv.floats "s", kv.floats "dz", kv.floats "ds", kv.float "a" with
     | some z, some s, some dz, some ds, some a => fmtM fmtVal (Vec.dotShiftedE z s dz ds a)
     | _, _, _, _, _ => "bad-request"
-  | _ => "unknown-channel"
+  | _ => C16Dense.handle ch kv
 
 def handleMath (ch : String) (kv : KV) : String :=
   match ch with
